@@ -97,7 +97,10 @@ def make_cfg(rng, i):
             q = p
         n = int(rng.integers(q + 6, 25))
         X = gen_rednoise(rng, n, p)
-        cfg = dict(kind="rednoise", n=n, p=p, q=q, use_pca=use_pca, n_pca_modes=q, center=bool(rng.random() < 0.8),
+        center = bool(rng.random() < 0.7)
+        if not center:
+            X = X + rng.standard_normal(p) * 2.0       # a mean state that is NOT removed: the model works on the data as given
+        cfg = dict(kind="rednoise", n=n, p=p, q=q, use_pca=use_pca, n_pca_modes=q, center=center,
                    standardize=bool(rng.random() < 0.35), use_coslat=False, pairs=[], reals=[])
     cfg["history"] = int(rng.integers(1, 1 << 30)) if rng.random() < 0.3 else 0
     cfg["layout"] = "x"
@@ -196,6 +199,20 @@ def oracles(ctx, cfg, rec, replay):
     if not res <= 1e-6 * sa * np.abs(P).max():
         ctx.violation("C18:eigen-residual:%s" % tag, "POP(%s): A p != lambda p for the reported patterns/eigenvalues, residual %.3g (|A| %.3g)" % (tag, res, sa), replay)
     V = rec["V"]
+    # the PC space the model works in is spanned by the leading right singular vectors of the preprocessed data AS IT IS
+    # (independent SVD), and the PC-space data is its projection on them
+    if cfg["use_pca"] and V.shape[1] < V.shape[0]:
+        sv_ind = np.linalg.svd(rec["Xpre"], compute_uv=False)
+        if len(sv_ind) > q and sv_ind[q - 1] - sv_ind[q] > 1e-6 * sv_ind[0]:
+            Vq = np.linalg.svd(rec["Xpre"], full_matrices=False)[2][:q].conj().T
+            dev = np.abs(Vq @ Vq.conj().T - V @ V.conj().T).max()
+            if not dev <= 1e-7:
+                ctx.violation("C18:pc-space:%s" % tag, "POP(%s, center=%s): the retained PC space is not the span of the %d leading singular vectors of the "
+                              "preprocessed data (projectors differ by %.3g)" % (tag, cfg["center"], q, dev), replay)
+    if V.shape[0] == rec["Xpre"].shape[1] and V.shape[1] == q:
+        devz = np.abs(rec["Xpre"] @ V - Z).max()
+        if not devz <= 1e-8 * max(np.abs(Z).max(), 1e-300):
+            ctx.violation("C18:pc-data:%s" % tag, "POP(%s): the PC-space data is not the preprocessed data times the PCA basis (max dev %.3g)" % (tag, devz), replay)
     Aphys = V @ A1 @ V.conj().T
     res2 = np.abs(Aphys @ rec["comps"] - rec["comps"] * lam).max()
     if not res2 <= 1e-6 * max(np.abs(Aphys).max(), 1e-300) * np.abs(rec["comps"]).max():
